@@ -250,3 +250,5 @@ func fromJSON(v any) any {
 	}
 	return v
 }
+
+func stringsReader(s string) *strings.Reader { return strings.NewReader(s) }
